@@ -132,7 +132,7 @@ STRUCT = {
             "8 nesting trees (depth <= 4, branching <= 2, sibling sub-trees sharing a textual prefix) x ALL permutations of the flat struct's fields (<= 6 fields) x {plain, struct-level ghosts addressed by child path incl. a ghost-only node, a bare #[parent] member} x 6 impls; the same trees as parameterised #[parent(..)] lists in 24 entry orders"),
     "c11": ("get_quote_trait_params (assumed callee of the quote_*_trait contracts: `for` loop over a collection, parse_quote!)",
             "the deriving type's parameters are declared once on the impl (bounds kept, no defaults) and applied in argument form; counterpart-only lifetimes are declared; the dedicated-else-default where_clause is attached; by-reference impls over lifetimes get `&'o2o` with 'o2o outliving exactly the borrowed result's lifetimes",
-            "11 parameter lists (lifetimes, bounded / defaulted / const parameters) x 6 counterpart paths x 12 conversion kinds x 4 where_clause settings"),
+            "11 parameter lists (lifetimes, bounded / defaulted / const parameters) x 8 counterpart paths (generic, lifetime, foreign and repeated lifetime arguments) x 12 conversion kinds x 4 where_clause settings"),
     "c08": ("struct_init_block_inner (`..expr`, ghosts), main_code_block, quote_*_trait end to end",
             "vars are the first statements, once, in declaration order; `..expr` is the base of the literal after exactly the fields the member instructions provide; `return expr` is the whole body; attribute / impl_attribute / inner_attribute sit on the fn / the impl / inside the body of every impl the instruction produces",
             "24 instructions x 7 type shapes x {no vars, 2 vars} x 5 attribute sets x {none, ..expr, return expr} x 2 parameter orders"),
